@@ -373,6 +373,7 @@ struct Universe {
     std::map<uint32_t, VSet> vsets;
     std::map<uint32_t, std::vector<resolvo::VersionSetId>> unions;
     bool has_problem = false;
+    bool filter_rev = false;  // filter_candidates returns what it keeps in reverse input order
     std::vector<Req> p_reqs;
     std::vector<uint32_t> p_cons, p_soft;
 };
@@ -442,6 +443,8 @@ static Universe parse_universe(const Lines &lines) {
             v.name = must_u32(t.at(3));
             v.matching = nums(5, nullptr, stop);
             u.vsets[must_u32(t.at(1))] = v;
+        } else if (t[0] == "filterrev") {
+            u.filter_rev = t.size() > 1 && t[1] == "1";
         } else if (t[0] == "union") {
             std::vector<resolvo::VersionSetId> m;
             for (uint32_t x : nums(3, nullptr, stop)) m.push_back(resolvo::VersionSetId{x});
@@ -581,6 +584,12 @@ struct TableProvider : public resolvo::DependencyProvider {
                      std::find(it->second.matching.begin(), it->second.matching.end(), c.id) !=
                          it->second.matching.end();
             if (m != inverse) out.push_back(c);
+        }
+        if (u.filter_rev) {
+            // the trait promises no order: this provider answers newest-first
+            resolvo::Vector<resolvo::SolvableId> rev;
+            for (size_t i = std::as_const(out).size(); i > 0; --i) rev.push_back(std::as_const(out)[i - 1]);
+            return rev;
         }
         return out;
     }
